@@ -106,7 +106,9 @@ func (n *vNet) lookup(a Address) *vSimTransport {
 
 // ---- Transport -------------------------------------------------------------
 
-func (t *vSimTransport) FinalAdvertiseAddr(string, int) (net.IP, int, error) { return t.ip, t.port, nil }
+func (t *vSimTransport) FinalAdvertiseAddr(string, int) (net.IP, int, error) {
+	return t.ip, t.port, nil
+}
 
 func (t *vSimTransport) WriteTo(b []byte, addr string) (time.Time, error) {
 	return t.WriteToAddress(b, Address{Addr: addr})
@@ -178,7 +180,7 @@ func (t *vSimTransport) WriteToAddress(b []byte, a Address) (time.Time, error) {
 	return now, nil
 }
 
-func (t *vSimTransport) PacketCh() <-chan *Packet { return t.packetCh }
+func (t *vSimTransport) PacketCh() <-chan *Packet  { return t.packetCh }
 func (t *vSimTransport) StreamCh() <-chan net.Conn { return t.streamCh }
 
 func (t *vSimTransport) DialTimeout(addr string, timeout time.Duration) (net.Conn, error) {
